@@ -254,6 +254,8 @@ def arg_to_json(a):
         return {"t": "tuple", "v": [arg_to_json(x) for x in a]}
     if isinstance(a, list):
         return {"t": "list", "v": [arg_to_json(x) for x in a]}
+    if isinstance(a, (set, frozenset)):
+        return {"t": "set", "v": [arg_to_json(x) for x in sorted(a)]}
     if isinstance(a, (bool, str)):
         return {"t": "lit", "v": a}
     if isinstance(a, (int, np.integer)):
@@ -271,6 +273,8 @@ def arg_from_json(d):
         return tuple(arg_from_json(x) for x in d["v"])
     if t == "list":
         return [arg_from_json(x) for x in d["v"]]
+    if t == "set":
+        return {arg_from_json(x) for x in d["v"]}
     return d["v"]
 
 
@@ -367,6 +371,130 @@ def write_file(desc, fileno):
                     f.write(" ".join(repr(x) for x in r) + "\n")
             f.write("#\tsigmaGen\t0.000314633\tsigmaErr\t6.06164e-07\n")
     return path
+
+
+# ----------------------------------------------------------------------------- call forms
+# documented parameter order of the public calls (signatures / docstrings at /repo HEAD 8574834)
+PARAMS = {"particle_species": ["pdg_list"], "remove_particle_species": ["pdg_list"],
+          "lower_event_energy_cut": ["minimum_event_energy"], "pT_cut": ["cut_value_tuple"], "mT_cut": ["cut_value_tuple"],
+          "rapidity_cut": ["cut_value"], "pseudorapidity_cut": ["cut_value"], "spacetime_rapidity_cut": ["cut_value"],
+          "multiplicity_cut": ["cut_value_tuple"], "spacetime_cut": ["dim", "cut_value_tuple"],
+          "particle_status": ["status_list"]}
+CTOR_PARAM = {"p": "particle_object_list", "o": "OSCAR_FILE", "j": "JETSCAPE_FILE"}
+
+
+def gen_form(rng, name):
+    """one of the equivalent ways to write the call: all positional (documented order), all keywords, mixed"""
+    n = len(PARAMS.get(name, []))
+    if n == 0:
+        return "pos"
+    return rng.choice(["pos", "kw", "kw", "mixed"] if n > 1 else ["pos", "kw"])
+
+
+def invoke(s, name, args, form="pos"):
+    names = PARAMS.get(name, [])
+    if form == "pos" or len(names) != len(args) or not names:
+        return getattr(s, name)(*args)
+    if form == "kw":
+        return getattr(s, name)(**dict(zip(names, args)))
+    return getattr(s, name)(args[0], **dict(zip(names[1:], args[1:])))
+
+
+def invoke_add(a, b, form="op"):
+    return a.__add__(b) if form == "dunder" else a + b
+
+
+# ----------------------------------------------------------------------------- error-path calls
+# calls that must raise before anything is changed (argument validation), by method
+INVALID_ARGS = {
+    "pT_cut": [((None, None),), ((-1.0, 2.0),), ([0.0, 1.0],), (1.5,), ((0.0, "a"),), ((0.0, 1.0, 2.0),)],
+    "mT_cut": [((None, None),), ((0.0, 1.0, 2.0),), ((-0.5, None),), ("ab",)],
+    "multiplicity_cut": [((-1, 3),), ((None, None),), (3,), ((1,),)],
+    "rapidity_cut": [((None, 1.0),), ("a",), ((1.0, 2.0, 3.0),), (None,)],
+    "pseudorapidity_cut": [((1.0, None),), ([0.0, 1.0],), (None,)],
+    "spacetime_rapidity_cut": [((None, 1.0),), ("a",)],
+    "spacetime_cut": [("w", (0.0, 1.0)), ("x", (None, None)), ("x", [0.0, 1.0]), (3, (0.0, 1.0)), ("t", (0.0, 1.0, 2.0))],
+    "lower_event_energy_cut": [(-1.0,), (0,), ("a",), (float("nan"),)],
+    "particle_species": [("a",), (None,), ([211, "a"],), ({211},)],
+    "remove_particle_species": [(None,), ({211},)],
+    "particle_status": [("x",), (1.5,), ([1, "a"],)],
+}
+# the subset whose error kind the Lean model is known to reproduce (C03's malformed stream)
+MODEL_SAFE = {("pT_cut", 0), ("pT_cut", 1), ("pT_cut", 2), ("mT_cut", 1), ("multiplicity_cut", 0), ("rapidity_cut", 0),
+              ("rapidity_cut", 1), ("spacetime_cut", 0), ("spacetime_cut", 1), ("lower_event_energy_cut", 0)}
+# valid calls that warn (limits in reversed order): with warnings turned into errors they fail inside the call
+WARNING_ARGS = {"pT_cut": [((2.0, 0.5),)], "mT_cut": [((3.0, 1.0),)], "multiplicity_cut": [((4, 1),)],
+                "spacetime_cut": [("x", (1.0, -1.0)), ("t", (3.0, 0.5))], "rapidity_cut": [((1.0, -1.0),)],
+                "pseudorapidity_cut": [((2.0, 0.0),)]}
+BAD_OPERANDS = [3, None, "x", [[]], 1.5]
+
+
+def gen_bad_step(rng, reg, kind, nregs, reg_kinds):
+    """a call on register `reg` that is expected to raise: invalid argument (rejected up front), a filter that fails
+    midway because of a particle's data, a warning turned into an error, `+` with an incompatible operand.
+    If the call does not raise after all it is judged like any valid call."""
+    r = rng.random()
+    impl = [n for n in INVALID_ARGS if n not in NOT_IMPLEMENTED[kind]]
+    if r < 0.5:
+        name = rng.choice(impl)
+        k = rng.randrange(len(INVALID_ARGS[name]))
+        return {"op": "filter", "reg": reg, "name": name, "args": args_to_json(INVALID_ARGS[name][k]), "bad": "invalid-arg",
+                "variant": k, "form": gen_form(rng, name)}
+    if r < 0.65 and "spacetime_rapidity_cut" not in NOT_IMPLEMENTED[kind]:
+        return {"op": "filter", "reg": reg, "name": "spacetime_rapidity_cut",
+                "args": args_to_json((rng.choice([0.5, 1.0, (-1.0, 1.0), 2.0]),)), "bad": "midway", "form": gen_form(rng, "spacetime_rapidity_cut")}
+    if r < 0.8:
+        names = [n for n in WARNING_ARGS if n not in NOT_IMPLEMENTED[kind]]
+        name = rng.choice(names)
+        return {"op": "filter", "reg": reg, "name": name, "args": args_to_json(rng.choice(WARNING_ARGS[name])),
+                "bad": "warn-as-error", "form": gen_form(rng, name)}
+    other = [j for j in range(nregs) if reg_kinds[j] != kind]
+    if other and rng.random() < 0.5:
+        return {"op": "filter", "reg": reg, "name": "__add__", "b": rng.choice(other), "args": [], "bad": "incompatible-operand",
+                "form": rng.choice(["op", "dunder"])}
+    return {"op": "filter", "reg": reg, "name": "__add__", "other": arg_to_json(rng.choice(BAD_OPERANDS)), "args": [],
+            "bad": "incompatible-operand", "form": "op"}
+
+
+def deep_state(s):
+    """everything a caller can observe on a storer, in comparable form (identity of particles, their data, every attribute)"""
+    def canon(v):
+        if isinstance(v, np.ndarray):
+            return ("ndarray", v.shape, str(v.dtype), [("nan" if x != x else x) for x in v.ravel().tolist()])
+        if isinstance(v, (list, tuple)):
+            return (type(v).__name__, [canon(x) for x in v])
+        if isinstance(v, dict):
+            return ("dict", sorted((str(k), canon(x)) for k, x in v.items()))
+        if hasattr(v, "data_") and isinstance(getattr(v, "data_"), np.ndarray):
+            return ("particle", id(v), canon(v.data_))
+        if isinstance(v, float) and v != v:
+            return "nan"
+        if isinstance(v, (int, float, str, bool, type(None), np.integer, np.floating)):
+            return v
+        return ("object", type(v).__name__)
+    d = {k: canon(v) for k, v in vars(s).items()}
+    try:
+        d["<particle_list()>"] = canon(s.particle_list())
+    except Exception as e:
+        d["<particle_list()>"] = "raises " + type(e).__name__
+    return d
+
+
+def state_diff(x, y):
+    return sorted(k for k in set(x) | set(y) if x.get(k) != y.get(k))
+
+
+def call_step(w, step):
+    """perform a method-like step (filter method or the `+` of an error-path step) the way a caller would; warnings are
+    errors for `warn-as-error` steps"""
+    s = w.regs[step["reg"]]
+    form = step.get("form", "pos")
+    with warnings.catch_warnings():
+        warnings.simplefilter("error" if step.get("bad") == "warn-as-error" else "ignore")
+        if step["name"] == "__add__":
+            other = w.regs[step["b"]] if "b" in step else arg_from_json(step["other"])
+            return invoke_add(s, other, form)
+        return invoke(s, step["name"], args_from_json(step["args"]), form)
 
 
 # ----------------------------------------------------------------------------- programs
@@ -526,8 +654,10 @@ class World:
             self.paths[src] = write_file(self.prog["sources"][src], len(self.paths) + 1)
         return self.paths[src]
 
-    def load(self, src, kw):
+    def load(self, src, kw, form="pos", explicit_default=False):
         d = self.prog["sources"][src]
+        def build(cls, first):
+            return cls(**dict({CTOR_PARAM[d["kind"]]: first}, **kw)) if form == "kw" else cls(first, **kw)
         if d["kind"] == "p":
             from sparkx.ParticleObjectStorer import ParticleObjectStorer
             if src not in self.full:
@@ -544,14 +674,16 @@ class World:
                         p.ID = 1000 * (int(src[1:]) + 1) + n
                         n += 1
                 self.full[src] = objs
-            return ParticleObjectStorer([list(ev) for ev in self.full[src]], **kw)
+            return build(ParticleObjectStorer, [list(ev) for ev in self.full[src]])
         if d["kind"] == "o":
             from sparkx.Oscar import Oscar
-            return Oscar(self.path(src), **kw)
+            return build(Oscar, self.path(src))
         from sparkx.Jetscape import Jetscape
         if d.get("parton"):
             kw = dict(kw, particletype="parton")
-        return Jetscape(self.path(src), **kw)
+        elif explicit_default:
+            kw = dict(kw, particletype="hadron")          # the documented default, given explicitly
+        return build(Jetscape, self.path(src))
 
     def full_events(self, src):
         d = self.prog["sources"][src]
@@ -698,7 +830,7 @@ def run_program(prog, oracle=None):
         try:
             if op == "leaf":
                 kw = kwargs_from_json(step.get("kwargs", {}))
-                s = w.load(step["src"], kw)
+                s = w.load(step["src"], kw, step.get("form", "pos"), step.get("explicit_default", False))
                 w.regs.append(s)
                 d = prog["sources"][step["src"]]
                 w.meta.append({"kind": d["kind"], "ptype": 1 if d.get("parton") else 0})
@@ -707,14 +839,14 @@ def run_program(prog, oracle=None):
             elif op == "filter":
                 s = w.regs[step["reg"]]
                 instrs.append(f"F@{step['reg']}@{pmodel.encode_call(step['name'], args_from_json(step['args']))}")
-                r = getattr(s, step["name"])(*args_from_json(step["args"]))
+                r = call_step(w, step)
                 if r is not s:
                     raise AssertionError("filter method did not return self")
                 target = s
             else:
                 a, b = w.regs[step["a"]], w.regs[step["b"]]
                 instrs.append(f"A@{step['a']}@{step['b']}")
-                target = a + b
+                target = invoke_add(a, b, step.get("form", "op"))
                 w.regs.append(target)
                 w.meta.append(dict(w.meta[step["a"]]))
         except Exception as e:
@@ -723,6 +855,8 @@ def run_program(prog, oracle=None):
                 obs.append("ctor-" + errkind(e))
                 return w, instrs, obs
             obs.append(errkind(e))
+            if op == "filter" and step.get("bad"):
+                continue        # an error-path step: the history goes on with the same objects
             return w, instrs, obs
         obs.append(w.observe(target))
     return w, instrs, obs
@@ -765,10 +899,15 @@ def short(x):
 
 def step_text(step):
     if step["op"] == "leaf":
-        return f"{step['src']}({json.dumps(step.get('kwargs', {}))})"
+        return f"{step['src']}({json.dumps(step.get('kwargs', {}))})" + (" <kw>" if step.get("form") == "kw" else "")
     if step["op"] == "filter":
-        return f"r{step['reg']}.{step['name']}{pmodel_args(step['args'])}"
-    return f"r{step['a']}+r{step['b']}"
+        tag = f" [{step['bad']}]" if step.get("bad") else ""
+        form = "" if step.get("form", "pos") in ("pos", "op") else f" <{step['form']}>"
+        if step["name"] == "__add__":
+            other = f"r{step['b']}" if "b" in step else repr(arg_from_json(step["other"]))
+            return f"r{step['reg']}+{other}{form}{tag}"
+        return f"r{step['reg']}.{step['name']}{pmodel_args(step['args'])}{form}{tag}"
+    return f"r{step['a']}+r{step['b']}" + ("" if step.get("form", "op") == "op" else " <dunder>")
 
 
 def pmodel_args(js):
@@ -803,7 +942,8 @@ def gen_program(rng, maxlen=12, want_kind=None):
         src = rng.choice(sorted(prog["sources"]))
         d = prog["sources"][src]
         kw = gen_kwargs(rng, len(d["events"]), d["kind"], d["events"])
-        prog["steps"].append({"op": "leaf", "src": src, "kwargs": kwargs_to_json(kw)})
+        prog["steps"].append({"op": "leaf", "src": src, "kwargs": kwargs_to_json(kw), "form": rng.choice(["pos", "kw"]),
+                              "explicit_default": rng.random() < 0.3})
         reg_kinds.append(d["kind"])
     nops = rng.randint(1, max(1, maxlen - nleaf))
     for _ in range(nops):
@@ -812,14 +952,18 @@ def gen_program(rng, maxlen=12, want_kind=None):
             a = rng.randrange(len(reg_kinds))
             same = [j for j, k in enumerate(reg_kinds) if k == reg_kinds[a]]
             b = rng.choice(same) if rng.random() < 0.95 else rng.randrange(len(reg_kinds))
-            prog["steps"].append({"op": "add", "a": a, "b": b})
+            prog["steps"].append({"op": "add", "a": a, "b": b, "form": rng.choice(["op", "op", "dunder"])})
             reg_kinds.append(reg_kinds[a])
         elif r < 0.34:
             src = rng.choice(sorted(prog["sources"]))
             d = prog["sources"][src]
             kw = gen_kwargs(rng, len(d["events"]), d["kind"], d["events"])
-            prog["steps"].append({"op": "leaf", "src": src, "kwargs": kwargs_to_json(kw)})
+            prog["steps"].append({"op": "leaf", "src": src, "kwargs": kwargs_to_json(kw), "form": rng.choice(["pos", "kw"]),
+                                  "explicit_default": rng.random() < 0.3})
             reg_kinds.append(d["kind"])
+        elif r < 0.44:
+            reg = rng.randrange(len(reg_kinds))
+            prog["steps"].append(gen_bad_step(rng, reg, reg_kinds[reg], len(reg_kinds), reg_kinds))
         else:
             reg = rng.randrange(len(reg_kinds))
             k = reg_kinds[reg]
@@ -828,8 +972,21 @@ def gen_program(rng, maxlen=12, want_kind=None):
                 names = [n for n in ["multiplicity_cut", "lower_event_energy_cut", "charged_particles", "uncharged_particles",
                                      "pT_cut", "remove_particle_species"] if n not in NOT_IMPLEMENTED[k]]
             name, args = pmodel.gen_call(rng, names)
-            prog["steps"].append({"op": "filter", "reg": reg, "name": name, "args": args_to_json(args)})
+            prog["steps"].append({"op": "filter", "reg": reg, "name": name, "args": args_to_json(args), "form": gen_form(rng, name)})
     return prog
+
+
+def model_view(prog):
+    """the program as the Lean driver can follow it: error-path steps whose outcome the model cannot express (an
+    operand that is not a storer, warnings turned into errors, arguments outside the line protocol) are left out"""
+    steps = []
+    for st in prog["steps"]:
+        if st["op"] == "filter" and st.get("bad"):
+            if st["bad"] == "midway" or (st["bad"] == "invalid-arg" and (st["name"], st.get("variant")) in MODEL_SAFE):
+                steps.append(st)
+            continue
+        steps.append(st)
+    return {"sources": prog["sources"], "steps": steps}
 
 
 def gen_file_with(rng, kind, parton):
@@ -843,7 +1000,7 @@ def gen_file_with(rng, kind, parton):
 def make_admissible(prog):
     """drop steps the generator produced blindly but that cannot run: leaves whose constructor raises, filters that
     need a PDG id / time-like position when a held particle lacks it.  (Programs are executed once to find out.)"""
-    steps = list(prog["steps"])
+    steps = list(model_view(prog)["steps"])
     for _ in range(40):
         p2 = {"sources": prog["sources"], "steps": steps}
         w, instrs, obs = run_program(p2)
@@ -851,6 +1008,8 @@ def make_admissible(prog):
         for i, o in enumerate(obs):
             if isinstance(o, str):
                 st = steps[i]
+                if st["op"] == "filter" and st.get("bad"):
+                    continue            # an intended error-path step
                 if o.startswith("ctor-"):
                     bad = i
                 elif st["op"] == "filter" and o in ("err value", "err type") and inadmissible(w, st):
@@ -1027,6 +1186,8 @@ def count_tags(ctx, prog, obs):
         d = prog["sources"][st["src"]] if st["op"] == "leaf" else None
         if st["op"] == "leaf":
             ctx.count(f"leaf/{CLSNAME[d['kind']]}/{origin_of(st.get('kwargs', {}))}")
+        elif st["op"] == "filter" and st.get("bad"):
+            ctx.count(f"corr-error-path/{st['bad']}/{st['name']}" + ("/" + o.replace(" ", "-") if isinstance(o, str) else "/accepted"))
         elif st["op"] == "filter":
             ctx.count("filter/" + st["name"] + ("/" + o.replace(" ", "-") if isinstance(o, str) else ""))
         else:
@@ -1060,7 +1221,7 @@ def correspond(ctx):
     for name, prog, _ in corpus_programs():
         cases.append((prog, "corpus:" + name))
     for prog in systematic_programs(rng, None if ctx.thorough else 40):
-        prog = make_admissible(prog)
+        prog = make_admissible(with_forms(rng, prog))
         if prog is not None:
             cases.append((prog, "systematic"))
     nfixed = len(cases)
@@ -1270,6 +1431,7 @@ def oracle_program(prog, rng=None, stats=None):
     w = World(prog)
     refs = []
     fails = []
+    erred = set()          # registers on which a call has failed (and every sum built from them)
     for i, step in enumerate(prog["steps"]):
         op = step["op"]
         try:
@@ -1280,8 +1442,15 @@ def oracle_program(prog, rng=None, stats=None):
                 kw = kwargs_from_json(kwj)
                 origin = origin_of(kwj)
                 try:
-                    s = w.load(step["src"], kw)
-                except Exception:
+                    s = w.load(step["src"], kw, step.get("form", "pos"), step.get("explicit_default", False))
+                except Exception as e:
+                    if step.get("form", "pos") != "pos" or step.get("explicit_default"):
+                        try:
+                            w.load(step["src"], kw)
+                        except Exception:
+                            return fails
+                        raise Fail(f"{CLSNAME[cls]}-ctor-call-form", f"constructor accepts the positional call but "
+                                   f"{step_text(step)} (keyword / explicit default form) raised {type(e).__name__}: {e}")
                     return fails      # constructor rejects these arguments: not a loaded object
                 w.regs.append(s)
                 w.meta.append({"kind": cls, "ptype": 1 if d.get("parton") else 0})
@@ -1311,34 +1480,87 @@ def oracle_program(prog, rng=None, stats=None):
                 r = step["reg"]
                 s, ref, cls = w.regs[r], refs[r], w.meta[r]["kind"]
                 name, args = step["name"], args_from_json(step["args"])
-                if name in NOT_IMPLEMENTED[cls]:
+                if name == "__add__":
+                    # error-path addition: an operand that is not a storer / of another class / particle type
+                    other = w.regs[step["b"]] if "b" in step else arg_from_json(step["other"])
+                    compatible = "b" in step and w.meta[step["b"]] == w.meta[r]
+                    before = deep_state(s)
+                    before_o = deep_state(other) if "b" in step else None
                     try:
-                        getattr(s, name)(*args)
+                        call_step(w, step)
+                    except Exception as e:
+                        d1 = state_diff(before, deep_state(s))
+                        d2 = state_diff(before_o, deep_state(other)) if before_o is not None else []
+                        if d1 or d2:
+                            raise Fail("error-path:object-changed-by-failed-call:__add__",
+                                       f"[{CLSNAME[cls]}] {step_text(step)} raised {type(e).__name__} and changed {d1 + d2}")
+                        erred.add(r)
+                        if stats is not None:
+                            stats[f"error-path/{step.get('bad')}/__add__"] = stats.get(f"error-path/{step.get('bad')}/__add__", 0) + 1
+                    else:
+                        if not compatible:
+                            raise Fail("add-incompatible-accepted", f"{step_text(step)} did not raise")
+                    check_state(s, ref, cls, "filter")
+                elif name in NOT_IMPLEMENTED[cls]:
+                    before = deep_state(s)
+                    try:
+                        call_step(w, step)
                         raise Fail(f"{CLSNAME[cls]}-notimplemented-override-missing", f"{name} did not raise NotImplementedError")
                     except NotImplementedError:
                         pass
+                    except Fail:
+                        raise
+                    except Exception:
+                        pass            # an invalid argument may be rejected before the override is reached
+                    d1 = state_diff(before, deep_state(s))
+                    if d1:
+                        raise Fail(f"error-path:object-changed-by-failed-call:{name}", f"[{CLSNAME[cls]}] {step_text(step)} changed {d1}")
                     check_state(s, ref, cls, "filter")
-                    continue
-                if inadmissible(w, step):
-                    return fails
-                try:
-                    exp = pmodel.ref_filter(name, args, ref["events"]) if ref["events"] else []
-                except Exception:
-                    return fails      # argument outside the filter's documented domain
-                try:
-                    out = getattr(s, name)(*args)
-                except Exception as e:
-                    if isinstance(e, (ValueError, TypeError)) and not valid_args(name, args):
+                else:
+                    pol_now = s.particle_objects_list()
+                    if name in pmodel.NEEDS_PDG and any(p.pdg != p.pdg for ev in pol_now for p in ev):
+                        # a PDG-based filter on a particle without PDG id raises `int(nan)` from inside an in-place loop of
+                        # Filter.py (events before the particle are already replaced): outside the property's quantifier
+                        # ("admissible"), reported separately — see the C04 report
                         return fails
-                    if not ref["events"]:
-                        raise Fail("no-events-filter-raises", f"[{CLSNAME[cls]}] no event held: {name}{pmodel_args(step['args'])} raised "
-                                   f"{type(e).__name__}: {e}")
-                    raise Fail(f"{CLSNAME[cls]}-filter-raises-{type(e).__name__}",
-                               f"{name}{pmodel_args(step['args'])} raised {type(e).__name__}: {e}")
-                if out is not s:
-                    raise Fail(f"{CLSNAME[cls]}-filter-return", f"{name} did not return self")
-                ref["events"] = exp
-                check_state(s, ref, cls, "filter")
+                    spacelike = name == "spacetime_rapidity_cut" and any(pmodel.spacelike(p) for ev in pol_now for p in ev)
+                    before = deep_state(s)
+                    try:
+                        out = call_step(w, step)
+                    except Exception as e:
+                        expected = bool(step.get("bad")) or spacelike or \
+                            (isinstance(e, (ValueError, TypeError)) and not valid_args(name, args))
+                        if not expected:
+                            if not ref["events"]:
+                                raise Fail("no-events-filter-raises", f"[{CLSNAME[cls]}] no event held: {step_text(step)} raised "
+                                           f"{type(e).__name__}: {e}")
+                            raise Fail(f"{CLSNAME[cls]}-filter-raises-{type(e).__name__}",
+                                       f"{step_text(step)} raised {type(e).__name__}: {e}")
+                        d1 = state_diff(before, deep_state(s))
+                        if d1:
+                            raise Fail(f"error-path:object-changed-by-failed-call:{name}",
+                                       f"[{CLSNAME[cls]}] {step_text(step)} raised {type(e).__name__} ({str(e)[:60]}) and left the "
+                                       f"storer changed: {d1}")
+                        erred.add(r)
+                        if stats is not None:
+                            why = step.get("bad") or ("midway" if spacelike else "invalid-arg")
+                            if why == "midway":
+                                pos = [k for k, ev in enumerate(pol_now) if any(pmodel.spacelike(p) for p in ev)]
+                                where = "first" if pos and pos[0] == 0 else ("last" if pos and pos[0] == len(pol_now) - 1 else "middle")
+                                why = f"midway/{where}-event"
+                            stats[f"error-path/{why}/{name}"] = stats.get(f"error-path/{why}/{name}", 0) + 1
+                        check_state(s, ref, cls, "filter")
+                    else:
+                        try:
+                            exp = pmodel.ref_filter(name, args, ref["events"]) if ref["events"] else []
+                        except Exception:
+                            return fails      # the call was accepted although the argument is outside the documented domain
+                        if out is not s:
+                            raise Fail(f"{CLSNAME[cls]}-filter-return", f"{name} did not return self")
+                        if stats is not None:
+                            stats[f"call-form/{step.get('form', 'pos')}"] = stats.get(f"call-form/{step.get('form', 'pos')}", 0) + 1
+                        ref["events"] = exp
+                        check_state(s, ref, cls, "filter")
             else:
                 a, b = w.regs[step["a"]], w.regs[step["b"]]
                 ra, rb = refs[step["a"]], refs[step["b"]]
@@ -1346,8 +1568,10 @@ def oracle_program(prog, rng=None, stats=None):
                 compatible = ma == mb
                 sa, sb = snapshot(a), snapshot(b)
                 try:
-                    c = a + b
+                    c = invoke_add(a, b, step.get("form", "op"))
                 except Exception as e:
+                    if not (same_snapshot(sa, snapshot(a)) and same_snapshot(sb, snapshot(b))):
+                        raise Fail("error-path:object-changed-by-failed-call:__add__", f"a+b raised {type(e).__name__} and changed an operand")
                     if not compatible and isinstance(e, TypeError):
                         return fails
                     if not ra["events"] or not rb["events"]:
@@ -1374,8 +1598,14 @@ def oracle_program(prog, rng=None, stats=None):
                         raise Fail("add-not-associative",
                                    f"[{CLSNAME[ma['kind']]}] (a+b)+c and a+(b+c) differ: {short(ox[:2])} vs {short(oy[:2])}")
         except Fail as f:
-            fails.append((f.key, f.what, i))
+            used = {step.get("reg"), step.get("a"), step.get("b")} & erred
+            key = f.key
+            if used and not key.startswith("error-path:"):
+                key = "instance-reuse-after-error:" + key
+            fails.append((key, f.what, i))
             return fails
+        if op == "add" and ({step["a"], step["b"]} & erred):
+            erred.add(len(w.regs) - 1)
         # every OTHER storer of the program (in particular the operands of earlier additions and the sums built from
         # a storer that is filtered now) must still be what the plain-list reference says: no step may reach into
         # another storer through a shared list / array
@@ -1415,14 +1645,100 @@ def valid_args(name, args):
     return True
 
 
+def timelike_row(rng, kind, ext):
+    r = gen_oscar_row(rng, ext) if kind == "o" else None
+    if r is not None:
+        r[0], r[3] = 5.0, rng.choice([-2.0, 0.0, 1.0, 3.0])
+    return r
+
+
+def error_path_programs(rng, n):
+    """long-lived objects with failing calls in between: per class a 3-event source whose space-like particle (for which
+    `spacetime_rapidity_cut` raises its documented ValueError) sits in the first / middle / last event, so that the
+    failing call has or has not done part of its work; valid calls, invalid arguments, warnings as errors, incompatible
+    `+`, all on the same objects, all call forms"""
+    progs = []
+    for i in range(n):
+        kind = ("p", "o", "j")[i % 3]
+        pos = (i // 3) % 3
+        ext = rng.random() < 0.5
+        if kind == "p":
+            evs = [[dict(pmodel.gen_spec(rng, 0.0), t=5.0, z=rng.choice([-2.0, 0.0, 1.0]), pdg=rng.choice([211, -211, 2212, 22, 111]))
+                    for _ in range(rng.randint(1, 4))] for _ in range(3)]
+            rng.choice(evs[pos]).update(t=0.5, z=2.0)
+            src = {"kind": "p", "events": evs}
+        elif kind == "o":
+            src = gen_file(rng, "o", ext)
+            rows = [[timelike_row(rng, "o", ext) for _ in range(rng.randint(1, 4))] for _ in range(3)]
+            bad = rng.choice(rows[pos])
+            bad[0], bad[3] = 0.5, 2.0
+            src["events"] = renumber(src, rows)
+        else:
+            src = gen_file_with(rng, "j", False)
+        other_kind = rng.choice([k for k in ("p", "o", "j") if k != kind])
+        other = {"kind": "p", "events": [[pmodel.gen_spec(rng, 0.0)]]} if other_kind == "p" else gen_file(rng, other_kind)
+        sources = {"s0": src, "s1": other}
+        steps = [{"op": "leaf", "src": "s0", "kwargs": {}, "form": rng.choice(["pos", "kw"]), "explicit_default": rng.random() < 0.5},
+                 {"op": "leaf", "src": "s0", "kwargs": {}, "form": "pos"},
+                 {"op": "leaf", "src": "s1", "kwargs": {}, "form": rng.choice(["pos", "kw"])}]
+        kinds = [kind, kind, other_kind]
+        if kind == "o":
+            sources["s2"] = dict(gen_file(rng, "o", not ext))
+            steps.append({"op": "leaf", "src": "s2", "kwargs": {}, "form": "pos"})
+            kinds.append("o")
+        if kind == "j":
+            sources["s2"] = gen_file_with(rng, "j", True)
+            steps.append({"op": "leaf", "src": "s2", "kwargs": {}, "form": "pos"})
+            kinds.append("j")
+        gentle = [x for x in ["charged_particles", "pT_cut", "remove_particle_species", "uncharged_particles", "multiplicity_cut", "spacetime_cut",
+                              "pseudorapidity_cut", "keep_hadrons"] if x not in NOT_IMPLEMENTED[kind]]
+        for k in range(rng.randint(4, 8)):
+            reg = rng.choice([0, 0, 0, 1])
+            if k % 2 == 0:
+                st = gen_bad_step(rng, reg, kind, len(kinds), kinds)
+                if kind == "o" and rng.random() < 0.15:
+                    st = {"op": "filter", "reg": reg, "name": "__add__", "b": 3, "args": [], "bad": "warn-as-error", "form": "op"}
+                if kind == "j" and rng.random() < 0.15:
+                    st = {"op": "filter", "reg": reg, "name": "__add__", "b": 3, "args": [], "bad": "incompatible-operand", "form": "dunder"}
+                steps.append(st)
+            else:
+                name, args = pmodel.gen_call(rng, gentle)
+                steps.append({"op": "filter", "reg": reg, "name": name, "args": args_to_json(args), "form": gen_form(rng, name)})
+        steps.append({"op": "add", "a": 0, "b": 1, "form": rng.choice(["op", "dunder"])})
+        name, args = pmodel.gen_call(rng, gentle)
+        steps.append({"op": "filter", "reg": len(kinds), "name": name, "args": args_to_json(args), "form": gen_form(rng, name)})
+        progs.append({"sources": sources, "steps": steps})
+    return progs
+
+
+def with_forms(rng, prog):
+    """give every call of a program that has none yet one of the equivalent call forms"""
+    for st in prog["steps"]:
+        if "form" in st:
+            continue
+        if st["op"] == "leaf":
+            st["form"] = rng.choice(["pos", "kw"])
+            st["explicit_default"] = rng.random() < 0.3
+        elif st["op"] == "filter":
+            st["form"] = gen_form(rng, st["name"])
+        else:
+            st["form"] = rng.choice(["op", "op", "dunder"])
+    return prog
+
+
+def base_key(key):
+    return key[len("instance-reuse-after-error:"):] if key.startswith("instance-reuse-after-error:") else key
+
+
 def search(ctx, budget_s):
     rng = ctx.rng
     t0 = time.time()
     n = 0
-    limit = 9000 if ctx.thorough else 750
+    limit = 9000 if ctx.thorough else 900
     seen = set()
-    todo = [prog for _, prog, _ in corpus_programs()] + systematic_programs(rng, None if ctx.thorough else 30) + \
-        ctor_filter_programs(rng, 2400 if ctx.thorough else 240)
+    todo = [prog for _, prog, _ in corpus_programs()] + \
+        [with_forms(rng, p_) for p_ in systematic_programs(rng, None if ctx.thorough else 30) +
+         ctor_filter_programs(rng, 2400 if ctx.thorough else 240)] + error_path_programs(rng, 1500 if ctx.thorough else 150)
     stats = {}
     while (time.time() - t0 < budget_s and n < limit) or todo:
         prog = todo.pop() if todo else gen_program(rng)
@@ -1434,14 +1750,16 @@ def search(ctx, budget_s):
                 continue
             seen.add(key)
             prog2 = {"sources": prog["sources"], "steps": prog["steps"][:at + 1]}
-            small = shrink(prog2, lambda p, key=key: any(k == key for k, _, _ in oracle_program(p)))
-            what2 = next((w_ for k, w_, _ in oracle_program(small) if k == key), what)
+            small = shrink(prog2, lambda p, key=key: any(base_key(k) == base_key(key) for k, _, _ in oracle_program(p)))
+            key, what2 = next(((k, w_) for k, w_, _ in oracle_program(small) if base_key(k) == base_key(key)), (key, what))
             ctx.violation(key, what2, dict(input=dict(program=small, text=[step_text(s) for s in small["steps"]]),
                                            how_to_replay="./check C04 --replay <this file>"))
     ctx.cov["oracle_cases"] = n
     ctx.count("oracle", n)
     for k, v in stats.items():
         ctx.count(k, v)
+    ctx.cov["error_path"] = {k[len("error-path/"):]: v for k, v in sorted(stats.items()) if k.startswith("error-path/")}
+    ctx.cov["call_forms"] = {k[len("call-form/"):]: v for k, v in stats.items() if k.startswith("call-form/")}
     ctx.cov["ctor_filters_order"] = dict(multi_entry_dicts=stats.get("ctor-filters/multi-entry-dicts", 0),
                                          order_sensitive=stats.get("ctor-filters/order-sensitive", 0),
                                          note="constructor filters= dictionaries with >= 2 entries checked against the filter functions "
